@@ -141,6 +141,13 @@ def rtl_gather(tf, tfl, ctx, rng, n):
       outs[max(monos)].append(lat(tf.constant(inp)).numpy())
     want = np.concatenate(outs[0] + outs[1], axis=1)
     evs.append(pair("RtlIsGatherIntoLattices", got, want, ctx, call={"nl": nl, "rank": rank, "ninc": ninc, "nunc": nunc}))
+    # the same inputs with the dictionary built in the other key order, with lists of single-column tensors, and
+    # (all-unconstrained layers) as a plain tensor: the recorded indices refer to one fixed flattening
+    got2 = layer({"unconstrained": tf.constant(xu), "increasing": tf.constant(xi)}).numpy()
+    evs.append(pair("RtlIsGatherIntoLattices", got2, want, ctx, call={"nl": nl, "rank": rank, "ninc": ninc, "nunc": nunc, "form": "reversed keys"}))
+    got3 = layer({"unconstrained": [tf.constant(xu[:, k:k + 1]) for k in range(nunc)],
+                  "increasing": [tf.constant(xi[:, k:k + 1]) for k in range(ninc)]}).numpy()
+    evs.append(pair("RtlIsGatherIntoLattices", got3, want, ctx, call={"nl": nl, "rank": rank, "ninc": ninc, "nunc": nunc, "form": "lists"}))
   return evs
 
 
